@@ -14,7 +14,7 @@ from typing import Dict, List, Optional, Tuple
 import common
 import spec as S
 
-GEN_VERSION = "33"
+GEN_VERSION = "35"
 
 STRUM_DERIVES = ["EnumString", "Display", "AsRefStr", "IntoStaticStr", "VariantNames", "EnumIter", "EnumCount", "FromRepr",
                  "VariantArray", "EnumDiscriminants", "EnumIs", "EnumTryAs", "EnumMessage", "EnumProperty", "EnumTable",
@@ -122,7 +122,9 @@ class E:
         if self.repr:
             out.append("#[repr(%s)]" % self.repr)
         single = sum(ord(c) for c in self.name) % 2 == 1      # half of the enums configure a single-segment local alias
-        cpath = "st" if single else "crate::reexp::strum_renamed"
+        # legal spellings of one path: plain, with blanks, through raw-identifier and non-ASCII module names, from the extern prelude
+        cpath = "st" if single else ["crate::reexp::strum_renamed", "crate :: reexp :: strum_renamed", "crate::reexp::r#mod::r\u00e9export::strum_renamed",
+                                     "::strum_renamed"][(sum(ord(c) for c in self.name) // 2) % 4]
         if any(d in STRUM_DERIVES for d in self.derives):
             if single:
                 out.insert(4, "#[cfg(feature = \"renamed\")] use crate::reexp::strum_renamed as st;")
@@ -592,6 +594,35 @@ def family_case_pairs(start: int) -> List[E]:
     for i, (emetas, vs_) in enumerate(shapes):
         vs = [V(n, "unit", [], [m_] if m_ else []) for n, m_ in vs_]
         out.append(E("Cpr%04d" % (start + i), "case_pairs", ["EnumString", "Display", "AsRefStr", "IntoStaticStr", "EnumMessage", "VariantNames"], vs, attrs=[emetas] if emetas else []))
+    # one variant's own aliases differing only in ASCII case while that variant is case-sensitive (whatever the enum says); cased
+    # non-ASCII letters in case-insensitive spellings next to a catch-all; each with a use_phf twin
+    k = start + len(shapes)
+    shapes2 = [
+        (["ascii_case_insensitive"], [V("Unit", attrs=[["ascii_case_insensitive = false", 'serialize = "abc"', 'serialize = "ABC"', 'serialize = "Abc"']]), V("Other"), V("Plain9")]),
+        ([], [V("Size", attrs=[['serialize = "Mb"', 'serialize = "MB"'], ['serialize = "mb"']]), V("Other", attrs=[["ascii_case_insensitive"]]), V("Plain9")]),
+        ([], [V("Anger", attrs=[['serialize = "\u00c4rger"', "ascii_case_insensitive"]]), V("Street", attrs=[['serialize = "stra\u00dfe"', "ascii_case_insensitive"]]),
+              V("\u00d6l", attrs=[["ascii_case_insensitive"]]), V("\u00c9t\u00e9"), V("Rest", "tuple", [(None, "Txt")], attrs=[["default"]])]),
+        (["ascii_case_insensitive"], [V("\u00c4rger"), V("Gr\u00f6\u00dfe", attrs=[['serialize = "GR\u00d6SSE"', 'serialize = "gr\u00f6\u00dfe"']]), V("Rest", "tuple", [(None, "Txt")], attrs=[["default"]])]),
+    ]
+    for emetas, vs in shapes2:
+        ders = ["EnumString", "Display", "AsRefStr", "IntoStaticStr", "VariantNames"]
+        if any(v.kind != "unit" for v in vs):
+            ders = ["EnumString", "Display"]
+        out.append(E("Cpr%04d" % k, "case_pairs", ders, vs, attrs=[emetas] if emetas else []))
+        out.append(E("Cpr%04d" % k, "case_pairs_phf", ["EnumString"], [V(v.name, v.kind, list(v.fields), [list(a) for a in v.attrs]) for v in vs],
+                     attrs=[emetas + ["use_phf"]], std_only=True, phf=True, twin_of="Cpr%04d" % k))
+        k += 1
+    # the catch-all variant next to default_with: on the variant (one list / two lists / before / after), on its field
+    dshapes = [
+        V("Rest", "tuple", [(None, "Txt")], attrs=[["default", 'default_with = "dw_txt"']]),
+        V("Rest", "tuple", [(None, "Txt")], attrs=[['default_with = "dw_txt"'], ["default"]]),
+        V("Rest", "named", [("raw", "Txt")], attrs=[["default"]], field_attrs={0: ['default_with = "dw_txt"']}),
+        V("Rest", "tuple", [(None, "Txt")], attrs=[["default"]], field_attrs={0: ['default_with = "dw_txt"']}),
+    ]
+    for dv in dshapes:
+        vs = [V("First"), V("Pair", "tuple", [(None, "u8"), (None, "u8")]), dv, V("Named", "named", [("a", "i32")], field_attrs={0: ['default_with = "dw_i32"']}), V("Last", "tuple", [(None, "u8")], attrs=[['default_with = "dw_u8"']])]
+        out.append(E("Cpr%04d" % k, "case_pairs", ["EnumString", "Display"], vs))
+        k += 1
     return out
 
 
@@ -1313,7 +1344,7 @@ def build_workspace(root: str, es: List[E], configs: List[str], disabled: Dict[s
             lib.append("#![no_std]")
         lib.append("#![allow(dead_code, unused_imports, deprecated, non_camel_case_types)]")
         if cfg == "renamed":
-            lib.append("pub mod reexp { pub use ::strum_renamed; }")
+            lib.append("pub mod reexp { pub use ::strum_renamed; pub mod r#mod { pub mod r\u00e9export { pub use ::strum_renamed; } } }")
             strum_path = "crate::reexp::strum_renamed"
         else:
             strum_path = "::strum"
